@@ -118,6 +118,7 @@ class Machine:
         self.big_ok = True
         self.hint = None
         self.last_mask = None
+        self.queue = []
 
     # ------------------------------------------------------------------ violations
     def fail(self, prop, vclass, where, message):
@@ -127,6 +128,8 @@ class Machine:
 
     # ------------------------------------------------------------------ generation
     def gen_op(self, rng, palette):
+        if self.queue:
+            return self.queue.pop(0)
         hint, self.hint = self.hint, None
         if hint is not None and hint < len(self.slots) and rng.random() < 0.7:
             # a freshly built near-tie index: let the library choose its common right away
@@ -160,7 +163,7 @@ class Machine:
             if r < 0.78:
                 rows = rng.choice((0, 1, 2, 3, 4, 5, 6, 8))
             elif r < 0.985:
-                rows = rng.choice((12, 17, 19, 21, 22, 23, 30, 37, 40, 64, 100, 128, 200, 255))
+                rows = rng.choice((12, 17, 19, 21, 22, 23, 30, 37, 40, 64, 100, 128, 200, 255, 256, 256))
             elif r < 0.9985 or not self.big_ok:
                 rows = rng.choice((257, 300))  # row ids beyond one byte
             else:
@@ -283,6 +286,18 @@ class Machine:
             return None
         s = self.slots[i]
         cells = list(numpy.ndindex(*s.a.shape))
+        keys = list(dict.keys(s.idx))
+        if keys and rng.random() < 0.25:
+            # an existing category gains rows: several cells of its column that hold something else get its value
+            key = rng.choice(keys)
+            col = tuple(key[1:])
+            column = s.a[(slice(None),) + col]
+            others = [r for r in range(len(column)) if column[r] != key[0]]
+            if len(others) >= 2:
+                rows = rng.sample(others, rng.randint(2, min(5, len(others))))
+                op = {"op": "update", "slot": i, "cells": [[[r] + list(col), int(key[0])] for r in sorted(rows)],
+                      "as_lists": rng.random() < 0.15, "as_strided": rng.random() < 0.4}
+                return op
         k = rng.choice((1, 1, 2, 3, len(cells)))
         chosen = rng.sample(cells, min(k, len(cells)))
         out = []
@@ -296,7 +311,7 @@ class Machine:
             else:
                 v = int(s.a[c])
             out.append([list(c), int(v)])
-        op = {"op": "update", "slot": i, "cells": out, "as_lists": rng.random() < 0.15}
+        op = {"op": "update", "slot": i, "cells": out, "as_lists": rng.random() < 0.15, "as_strided": rng.random() < 0.2}
         if rng.random() < 0.12:
             # an entry with NO rows for some value: degenerate but legal, must change nothing
             op["empty_keys"] = [[int(rng.choice(list(palette) + [9]))] + [rng.randrange(max(1, e)) for e in s.a.shape[1:]]]
@@ -356,6 +371,7 @@ class Machine:
         op = {"op": "slices1d", "slot": i}
         if rng.random() < 0.5:
             op["keep"] = rng.randrange(12)
+            op["keep2"] = rng.randrange(12) if rng.random() < 0.6 else None
             op["dst"] = self._dst(rng)
         return op
 
@@ -472,11 +488,29 @@ class Machine:
                 ent[(rng.choice(palette),) + tuple(0 for _ in s.a.shape[1:])] = [r for r in range(s.a.shape[0]) if rng.random() < 0.5]
         entries = [[list(k), sorted(set(v))] for k, v in ent.items()]
         return {"op": "set_update", "which": which, "slot": i, "entries": entries, "as_index": rng.random() < 0.3,
-                "as_lists": rng.random() < 0.2}
+                "as_lists": rng.random() < 0.2, "as_strided": rng.random() < 0.25}
 
     def gen_observe(self, rng, palette):
         i = self._slot_where(rng, lambda s: s.a.ndim <= 2)
-        return None if i is None else {"op": "observe", "slot": i}
+        if i is None:
+            return None
+        s = self.slots[i]
+        if rng.random() < 0.5 and s.a.size:
+            # observe, then swap one listed cell and one common cell of a column (same keys, same counts), observe again
+            cols = [()] if s.a.ndim == 1 else [(j,) for j in range(s.a.shape[1])]
+            rng.shuffle(cols)
+            for col in cols:
+                column = s.a[(slice(None),) + col]
+                listed = [r for r in range(len(column)) if column[r] != s.idx.common]
+                common = [r for r in range(len(column)) if column[r] == s.idx.common]
+                if listed and common:
+                    r1, r2 = rng.choice(listed), rng.choice(common)
+                    v = int(column[r1])
+                    self.queue = [{"op": "update", "slot": i, "as_lists": False,
+                                   "cells": [[[r1] + list(col), int(s.idx.common)], [[r2] + list(col), v]]},
+                                  {"op": "observe", "slot": i}]
+                    break
+        return {"op": "observe", "slot": i}
 
     def gen_persist(self, rng, palette):
         i = self._slot_where(rng, lambda s: s.a.ndim <= 3 and s.idx.common >= 0 and (s.a.size == 0 or s.a.min() >= 0))
@@ -488,6 +522,8 @@ class Machine:
             op["crash"] = rng.random()  # fraction of the file that survives
         elif rng.random() < 0.45:
             op.update(writer="other-tool", index_word=rng.choice((1, 1, 2, 4, 8)), rowid_word=rng.choice((1, 1, 2, 4, 8)))
+        elif rng.random() < 0.4:
+            op["writer"] = "library-narrow"
         return op
 
     # ------------------------------------------------------------------ execution
@@ -658,6 +694,9 @@ class Machine:
             self.stats.count("probe_operand_given_as_lists")
         else:
             entries = {k: numpy.array(sorted(r), dtype=U32) for k, r in ent.items()}
+            if op.get("as_strided"):
+                entries = model.strided(entries)  # non-contiguous views, neighbours hold other numbers
+                self.stats.count("probe_operand_given_as_strided_views")
         snap = model.snapshot(entries)
         if any(v == s.idx.common for _, v in cells):
             self.stats.count("probe_update_writes_common")
@@ -789,9 +828,19 @@ class Machine:
         # row-id arrays with the parent, and neither may be affected by what happens to the other
         keep = op.get("keep")
         if keep is not None and s.a.ndim >= 2 and got:
-            c, sub = got[keep % len(got)]
-            self.put(op.get("dst", len(self.slots)), sub, s.a[(slice(None),) + tuple(c)].copy())
-            self.stats.count("probe_slice_from_slices1d_kept_as_index")
+            picks = [keep % len(got)]
+            if len(got) > 1 and op.get("keep2") is not None:
+                second = op["keep2"] % len(got)
+                if second != picks[0]:
+                    picks.append(second)
+            parent = s.a
+            for n_, which in enumerate(picks):
+                c, sub = got[which]
+                dst = op.get("dst", len(self.slots)) if n_ == 0 else len(self.slots)
+                if dst >= MAX_SLOTS and n_ > 0:
+                    dst = (op.get("dst", 0) + 1) % MAX_SLOTS
+                self.put(dst, sub, parent[(slice(None),) + tuple(c)].copy())
+                self.stats.count("probe_slice_from_slices1d_kept_as_index")
 
     def do_reindexed(self, op):
         s = self.slot(op["slot"], maxdim=2)
@@ -944,6 +993,9 @@ class Machine:
         elif op.get("as_lists"):
             operand = {k: list(v) for k, v in ent.items()}
             self.stats.count("probe_operand_given_as_lists")
+        elif op.get("as_strided"):
+            operand = model.strided(arrays)
+            self.stats.count("probe_operand_given_as_strided_views")
         else:
             operand = arrays
         snap = model.snapshot(operand)
@@ -1017,12 +1069,23 @@ class Machine:
             out = iindex_cls()(dict(entries), common, s.idx.shape)
             self.put(op["dst"], out, s.a.copy())
             return
+        narrow = None
+        if op.get("writer") == "library-narrow":
+            # the library's own saver, handed the row ids in the narrowest word that holds every row id
+            from .. import refcodec
+
+            maxrow = max([int(v[-1]) for v in dict.values(s.idx) if len(v)] + [0])
+            narrow = numpy.dtype("u%d" % refcodec.narrowest_word(maxrow))
+            self.stats.count("probe_library_save_with_narrow_rowid_word")
         with disk.SimDisk() as d:
             f = d.writer(op["wmode"])
             try:
                 with warnings.catch_warnings():
                     warnings.simplefilter("ignore")
-                    IndxIO.save(f, s.idx, s.idx.common, U32)
+                    if narrow is not None and narrow != U32:
+                        IndxIO.save(f, {k: v.astype(narrow) for k, v in dict.items(s.idx)}, s.idx.common, narrow)
+                    else:
+                        IndxIO.save(f, s.idx, s.idx.common, U32)
                 f.flush()
             except Exception:
                 # save failures belong to C10/C11
@@ -1108,7 +1171,8 @@ class Machine:
             try:
                 dense = model.decode(s.idx)
             except Malformed as m:
-                self.fail("C07", m.vclass, where, "slot %d: %s" % (n, m))
+                # an index that does not stand for ANY array certainly does not stand for the NumPy result
+                self.fail("C06", "undecodable", where, "slot %d stands for no array at all: %s" % (n, m))
             if dense.shape != s.a.shape or not numpy.array_equal(dense, s.a):
                 self.fail("C06", "dense-mismatch", where,
                           "slot %d: index stands for %r (common %r), NumPy model says %r"
@@ -1272,8 +1336,51 @@ def replay(prop, case):
         pass
 
 
+def _scripted():
+    """A few fixed histories at representation boundaries that random generation reaches too rarely: an entry
+    with exactly 2^8 / 2^16 row ids (every id fits the narrow word, the COUNT does not) saved by the library in
+    the narrowest row-id word, reloaded, observed and used."""
+    out = []
+    for rows, cols in ((256, None), (256, 2), (65536, None), (255, None), (257, None)):
+        shape = [rows] if cols is None else [rows, cols]
+        n = rows * (cols or 1)
+        values = [7] * n
+        if cols:
+            values = [7 if j % cols == 0 else (j // cols) % 3 for j in range(n)]
+        for writer in ("library-narrow", "other-tool"):
+            out.append([
+                {"op": "new", "dst": 0, "shape": shape, "values": values, "common": 0, "strided": False},
+                {"op": "persist", "slot": 0, "dst": 1, "wmode": "raw", "rmode": "raw", "crash": None, "writer": writer,
+                 "index_word": 1, "rowid_word": 1},
+                {"op": "observe", "slot": 1},
+                {"op": "shift_common", "slot": 1, "to": None},
+                {"op": "copy", "slot": 1, "dst": 2},
+            ])
+    return out
+
+
+SCRIPTED = _scripted()
+
+
+def run_scripted(prop, history, stats):
+    m = Machine(prop, stats)
+    try:
+        for op in history:
+            m.execute(dict(op))
+    except Violation as v:
+        v.extra["case"] = {"history": history}
+        raise
+    except Other:
+        stats.count("stopped_by_other_property")
+    stats.count("evaluations")
+    stats.count("scripted_histories")
+    return m.log.hexdigest()
+
+
 def make_run(prop):
     def run(base_seed, idx, stats, opts):
+        if idx < len(SCRIPTED):
+            return run_scripted(prop, SCRIPTED[idx], stats)
         rng = core.rng_for(base_seed, "hist", idx)
         return run_history(prop, rng, stats, opts.get("tier", "quick"))
 
